@@ -176,6 +176,35 @@ template <class T> static bool exec_buf_t(Ctx &c, const Op &op) {
         if (settle(c, op, ex, 0)) { crossing<T>(c, dst->model.size(), n); dst->model = pattern; dst->moved_from = false; }
         return true;
     }
+    case B_HUGE: {
+        // "much larger": element counts that do not fit 32 (or 31, or 33) bits. The block comes from reserved address space (heap seam) and only
+        // its first and last page are ever touched: allocate(n), look, write the two ends, move the value out, let it go. No copy is made.
+        BufObj<T> *dst = pick(v, op.a);
+        if (!dst || !simrt::heap_huge_available()) { c.skipped = true; return true; }
+        static const unsigned SH[] = {32, 31, 33};
+        const size_t n = ((size_t)1 << SH[(op.b >> 5) % 3]) + op.b % 24;
+        char e[48]; std::snprintf(e, sizeof e, "dst=%c,2^%u+%u", cl(dst), SH[(op.b >> 5) % 3], (unsigned)(op.b % 24)); note_sig<T>(c, op, e);
+        c.budget_bytes = dst->model.size() * sizeof(T) + 256;
+        if (dst->moved_from) c.touched_moved_from = true;
+        as_target(dst);
+        bool size_ok = false, block_ok = false, term_ok = false, moved_ok = false;
+        ExcKind ex = run_sut(c, op, [&] {
+            Buf &b = *dst->p();
+            b.allocate(n);
+            size_ok = b.size() == n;
+            simrt::BlockInfo bi; block_ok = simrt::heap_lookup(b.data(), &bi) && bi.size >= (n + 1) * sizeof(T);
+            term_ok = block_ok && b.data()[n] == T(0);
+            if (block_ok) { b.data()[0] = T('h'); b.data()[n - 1] = T('z'); }
+            const T *was = b.data();
+            Buf t(std::move(b));
+            moved_ok = t.size() == n && (!block_ok || (t.data() == was && t.front() == T('h') && t.back() == T('z') && t.data()[n] == T(0)));
+        });
+        if (ex == EX_NONE && !(size_ok && block_ok && term_ok && moved_ok))
+            set_viol(c, !size_ok ? "value_mismatch" : !block_ok ? "storage_class" : !term_ok ? "terminator_missing" : "value_mismatch",
+                     std::string(ET<T>::name()) + ": allocate(" + std::to_string(n) + "): " + (!size_ok ? "size() differs" : !block_ok ? "data() is not the base of a live heap block of n+1 elements" : !term_ok ? "no NUL after the last element" : "the value did not survive a move"));
+        if (settle(c, op, ex, 0)) { crossing<T>(c, dst->model.size(), 0); dst->model.clear(); dst->moved_from = true; }
+        return true;
+    }
     case B_CLEAR: {
         BufObj<T> *dst = pick(v, op.a);
         if (!dst) { c.skipped = true; return true; }
